@@ -152,7 +152,9 @@ func cmdCheck(args []string) {
 		// ... and the frame of a function with an explicit `modifies` clause: a memory array the
 		// function did not touch before has no frame obligation on the unchanged tree; writing to
 		// pre-existing cells of it now is a breach of the clause that was proved
-		return strings.HasPrefix(o.Kind, "store.global") || strings.HasPrefix(o.Kind, "escape.global") || strings.HasPrefix(o.Kind, "arg.global") || o.Kind == "frame"
+		// ... and an allocation the function did not make before, in a function whose contract bounds
+		// every single allocation by its inputs (`allocates`)
+		return strings.HasPrefix(o.Kind, "store.global") || strings.HasPrefix(o.Kind, "escape.global") || strings.HasPrefix(o.Kind, "arg.global") || o.Kind == "frame" || o.Kind == "alloc"
 	}
 	// a further instance (#k) of a labelled contract clause all of whose instances on the
 	// unchanged tree are in the baseline: the clause is the unit of proof, so a failing new
@@ -232,6 +234,34 @@ func cmdCheck(args []string) {
 				retryRes[o] = r
 			}
 		}
+	}
+	if len(retry) > 40 && len(retry) <= 160 {
+		// many undecided obligations at once is the signature of a loaded machine rather than of a
+		// change to the code: a first retry round with a moderate limit brings the number down
+		saved := solverTimeout
+		solverTimeout = 40
+		var wg1 sync.WaitGroup
+		sem1 := make(chan struct{}, 4)
+		for _, o := range retry {
+			wg1.Add(1)
+			go func(o *Obl) {
+				defer wg1.Done()
+				sem1 <- struct{}{}
+				defer func() { <-sem1 }()
+				one := func(x *Obl) bool { return x == o }
+				o.Status = ""
+				discharge(retryRes[o], one, true)
+			}(o)
+		}
+		wg1.Wait()
+		solverTimeout = saved
+		var rest []*Obl
+		for _, o := range retry {
+			if o.Status != "unsat" && o.Status != "trivial" && o.Status != "sat" {
+				rest = append(rest, o)
+			}
+		}
+		retry = rest
 	}
 	if len(retry) > 0 && len(retry) <= 40 {
 		saved := solverTimeout
